@@ -7,6 +7,7 @@ import (
 	"go/token"
 	"go/types"
 	"regexp"
+	"sort"
 	"strings"
 
 	"golang.org/x/tools/go/ssa"
@@ -678,26 +679,58 @@ func ruleH7(c *Ctx) {
 		r.Fatal("anchor missing: (*shellVariablesEncoder).doEncode")
 		return
 	}
-	pathParam := fn.Params[len(fn.Params)-1]
-	n := 0
-	eachInstr(fn, func(ins ssa.Instruction) {
-		call, ok := ins.(*ssa.Call)
-		if !ok || call.Call.StaticCallee() != fn {
-			return
+	// every call of doEncode in the module that does not pass a constant (the
+	// root call passes ""), in source order; the calls may sit in doEncode itself
+	// or in helpers it delegates a node kind to
+	var calls []*ssa.Call
+	for _, g := range c.moduleFuncs() {
+		eachInstr(g, func(ins ssa.Instruction) {
+			call, ok := ins.(*ssa.Call)
+			if !ok || call.Call.StaticCallee() != fn {
+				return
+			}
+			if _, isConst := call.Call.Args[len(call.Call.Args)-1].(*ssa.Const); isConst {
+				return
+			}
+			calls = append(calls, call)
+		})
+	}
+	sort.Slice(calls, func(i, j int) bool { return calls[i].Pos() < calls[j].Pos() })
+	// okPath: v is appendPath(…), the root "", or a path parameter that only ever receives such values
+	var okPath func(v ssa.Value, seen map[ssa.Value]bool) bool
+	okPath = func(v ssa.Value, seen map[ssa.Value]bool) bool {
+		if seen[v] {
+			return true
 		}
+		seen[v] = true
+		switch x := v.(type) {
+		case *ssa.Const:
+			return x.Value != nil && x.Value.Kind() == constant.String && constant.StringVal(x.Value) == ""
+		case *ssa.Call:
+			return x.Call.StaticCallee() != nil && x.Call.StaticCallee().Name() == "appendPath"
+		case *ssa.Parameter:
+			g := x.Parent()
+			if g == fn {
+				return true // what doEncode receives is what its callers pass: each call is an obligation of this rule
+			}
+			return callersEstablish(g, func(call *ssa.CallCommon, at *ssa.BasicBlock) bool {
+				a := argOf(call, g, x)
+				return a != nil && okPath(a, seen)
+			})
+		}
+		return false
+	}
+	n := 0
+	for _, call := range calls {
 		n++
 		arg := call.Call.Args[len(call.Call.Args)-1]
 		key := fmt.Sprintf("doEncode/recursive-call#%d", n)
-		okArg := arg == ssa.Value(pathParam)
-		if c2, isCall := arg.(*ssa.Call); isCall && c2.Call.StaticCallee() != nil && c2.Call.StaticCallee().Name() == "appendPath" {
-			okArg = true
-		}
-		if okArg {
-			r.Discharge("H7", key, c.P.pos(call.Pos()), "child name = appendPath(path, component)")
+		if okPath(arg, map[ssa.Value]bool{}) {
+			r.Discharge("H7", key, c.P.pos(call.Pos()), "child name = appendPath(path, component), or the path handed down unchanged")
 		} else {
 			r.Finding("H7", key, c.P.pos(call.Pos()), "the name of a child is built as "+exprOfValue(arg)+" without appendPath: a component that is the first of the name (a root sequence index, a digit-leading key) is not prefixed and the line is no longer NAME=VALUE with a legal NAME")
 		}
-	})
+	}
 	if n == 0 {
 		r.Undecided("H7", "doEncode/recursive-call", c.P.pos(fn.Pos()), "doEncode no longer calls itself for children: shape not recognised")
 	}
